@@ -109,6 +109,17 @@ def handle (op : String) (args : List String) : Option String :=
         let r := Accel.packRefs (fun n => selS.contains n) (mapFn l) (mapFn p)
         s!"{(r.1 name).getD "none"} {(r.2 name).getD "none"} {(Accel.readRef r.1 r.2 name).getD "none"}"
       | _, _ => "bad-arg"
+  | "c14.reach.collect", [g, common, heads] => some <|
+      match parseMap g, csvNat? common, csvNat? heads with
+      | some g, some common, some heads =>
+        let tbl := g.filterMap (fun (k, v) => match nat? k, csvNat? v with
+          | some k, some v => some (k, v) | _, _ => none)
+        if tbl.length ≠ g.length then "bad-arg" else
+        let parents := fun c => ((tbl.find? (·.1 = c)).map (·.2)).getD []
+        let fuel := 4 * (tbl.length + heads.length + 4) * (tbl.length + heads.length + 4)
+        let r := Accel.collectAncestors parents common fuel heads []
+        showCsvNat (r.toArray.qsort (· < ·)).toList
+      | _, _, _ => "bad-arg"
   | "c14.gate", [a, b] => some <| match bytes? a, bytes? b with
       | some a, some b => showBool (Accel.bitmapGate a b) | _, _ => "bad-arg"
   | _, _ => none
